@@ -826,7 +826,13 @@ def _format_docstring(obj: model.Documentable, source: Optional[model.Documentab
         ret(tags.p(class_='undocumented')("Undocumented"))
     else:
         assert obj.parsed_docstring is not None, "ensure_parsed_docstring() did not do it's job"
-        stan = safe_to_stan(obj.parsed_docstring, source.docstring_linker, source, fallback=format_docstring_fallback)
+        if model.get_docstring(obj)[0] is not None:
+            fallback = format_docstring_fallback
+        else:
+            # The parsed docstring is the body of a field (@ivar in the docstring of the parent,
+            # @return of a property): source.docstring is not the text it has been parsed from.
+            fallback = _field_body_fallback
+        stan = safe_to_stan(obj.parsed_docstring, source.docstring_linker, source, fallback=fallback)
         ret(unwrap_docstring_stan(stan))
 
     fh = FieldHandler(obj)
